@@ -259,6 +259,13 @@ def make_xpath_harness(paths):
         recipe = LTREES[tno]
         root = LZ.lbuild(recipe)
         pos = _positions(recipe, root)
+        # what was constructed (and rejected) earlier in the process has no bearing on this xpath
+        earlier = e.pick(["none", "NoSuchClass", "//@f[", "/LLeaf//NoSuchClass"], "rejected_text_first")
+        if earlier != "none":
+            try:
+                ASTXpath(earlier)
+            except Exception:  # noqa: BLE001
+                pass
         xp = ASTXpath(text)
         multi = any(s[2] not in (None, "any") and len(s[2]) > 1 for s in steps)
 
@@ -268,8 +275,8 @@ def make_xpath_harness(paths):
         got = [where(ch) for n, _, ch in pos if xp.match(n)]
         want = [where(ch) for n, _, ch in pos if XR.matches(steps, relative, ch, LZ.LCLASSES)]
         if got != want:
-            e.fail("index-multi-digit:legacy-match" if multi else "legacy-match-differs-from-reference", scenario={"xpath": text, "tree": LZ.ldescribe(recipe), "match": got, "reference": want})
-        e.distinct((pno, tno))
+            e.fail(("index-multi-digit:legacy-match" if multi else "legacy-match-differs-from-reference") + ("" if earlier == "none" else ":after-a-rejected-text"), scenario={"xpath": text, "tree": LZ.ldescribe(recipe), "rejected_text_first": earlier, "match": got, "reference": want})
+        e.distinct((pno, tno, earlier))
         if want:
             e.count("nonempty_results")
         return {"xpath": text, "tree": tno, "matches": len(want)}
